@@ -29,6 +29,11 @@ fn inputs() -> Vec<Coor4D> {
             v.push(Coor4D([x, y, -0.0, t]));
         }
     }
+    // the false origins of the definitions below (the projection centre is a special branch in several inverses)
+    for (x, y) in [(0.0, 0.0), (4321000.0, 3210000.0), (500000.0, 0.0), (500000.0, 10000000.0), (2600000.0, 1200000.0), (590476.87, 442857.65), (12345.0, 67890.0), (400000.0, -100000.0), (1000.0, -2000.0)] {
+        v.push(Coor4D([x, y, z, t]));
+        v.push(Coor4D([x + 1e-11, y - 1e-11, 7.5, f64::NAN]));
+    }
     for s in [f64::NAN, f64::INFINITY, -f64::INFINITY, 1e300, -1e300, f64::MIN_POSITIVE] {
         v.push(Coor4D([s, 0.5, z, t]));
         v.push(Coor4D([0.5, s, z, t]));
@@ -97,10 +102,9 @@ fn judge(ctx: &mut Minimal, def: &str, plane: bool, fails: &mut Vec<String>, ids
     }
 }
 
-//@n {"id":"C10.N.counts","props":["C10","C09"],"tier":"quick","bound":"22 plane-projection definitions and 10 three-dimensional operator definitions x both directions x 558 input tuples (15-degree global lattice far beyond the domains, projected-size coordinates incl. values around the transverse Mercator strip limit and the laea origin, NaN / +-inf / 1e300 / subnormal elements, NaN epochs, negative zero heights)","text":"apply never reports more successes than tuples; every tuple it does not count carries NaN (never returned unchanged or partly transformed while looking valid); on every tuple that comes back clean the elements the operator does not work on (z,t for plane projections, t for 3-D operators) are bit-identical; NaN in lon/lat/x/y never yields a clean plane result; no panic"}
+//@n {"id":"C10.N.counts","props":["C10","C09"],"tier":"quick","bound":"22 plane-projection definitions and 10 three-dimensional operator definitions x both directions x 576 input tuples (15-degree global lattice far beyond the domains, projected-size coordinates incl. values around the transverse Mercator strip limit and the laea origin, NaN / +-inf / 1e300 / subnormal elements, NaN epochs, negative zero heights)","text":"apply never reports more successes than tuples; every tuple it does not count carries NaN (never returned unchanged or partly transformed while looking valid); on every tuple that comes back clean the elements the operator does not work on (z,t for plane projections, t for 3-D operators) are bit-identical; NaN in lon/lat/x/y never yields a clean plane result; no panic"}
 #[test]
 fn verif_native_c10_counts() {
-    std::panic::set_hook(Box::new(|_| {}));
     let mut ctx = Minimal::default();
     let plane = [
         "merc", "merc lat_ts=56 lon_0=9 x_0=1000 y_0=-2000", "webmerc",
@@ -126,6 +130,41 @@ fn verif_native_c10_counts() {
     for (i, def) in solid.iter().enumerate() {
         judge(&mut ctx, def, false, &mut fails, &mut ids, 100 + i, &mut n_eval);
     }
-    let _ = std::panic::take_hook();
     assert!(fails.is_empty(), "C10.N.counts: FAILSET{{{}}} {} failures in {} evaluations, first: {:?}", ids.join(","), fails.len(), n_eval, &fails[..fails.len().min(40)]);
+}
+
+
+//@n {"id":"C10.N.tmerc.strip","props":["C10","C13"],"tier":"quick","bound":"tmerc / utm-like definitions with x_0 in {0, 500000, -3000000} and y_0, lat_0 variations; eastings on a 2001-point grid across +-1.9e7 m around the false easting; 3 northings","text":"the inverse strip limit is measured from the false origin: whether a tuple is inside the transverse Mercator domain (transformed and counted) or beyond it (NaN, not counted) does not depend on x_0, and inside the domain the result is the same"}
+#[test]
+fn verif_native_c10_tmerc_strip() {
+    let mut ctx = Minimal::default();
+    let base = ctx.op("tmerc k_0=0.9996 lon_0=9").unwrap();
+    let mut fails = Vec::new();
+    let mut n = 0;
+    for (x0, def) in [(500000.0, "tmerc k_0=0.9996 lon_0=9 x_0=500000"), (-3000000.0, "tmerc k_0=0.9996 lon_0=9 x_0=-3000000"), (500000.0, "utm zone=32")] {
+        let op = ctx.op(def).unwrap();
+        for y in [0.0, 4.0e6, -7.5e6] {
+            let mut a: Vec<Coor4D> = Vec::new();
+            let mut b: Vec<Coor4D> = Vec::new();
+            for k in -1000..=1000 {
+                let x = k as f64 * 1.9e4;
+                a.push(Coor4D([x, y, 1.0, 2.0]));
+                b.push(Coor4D([x + x0, y, 1.0, 2.0]));
+            }
+            let ra = ctx.apply(base, Inv, &mut a).unwrap();
+            let rb = ctx.apply(op, Inv, &mut b).unwrap();
+            n += a.len();
+            if ra != rb {
+                fails.push(format!("`{def}` y={y}: {rb} tuples counted, {ra} without false easting"));
+            }
+            for (k, (p, q)) in a.iter().zip(b.iter()).enumerate() {
+                let same = (p[0] == q[0] || (p[0].is_nan() && q[0].is_nan()) || (p[0] - q[0]).abs() < 1e-12) && (p[1] == q[1] || (p[1].is_nan() && q[1].is_nan()) || (p[1] - q[1]).abs() < 1e-12);
+                if !same {
+                    fails.push(format!("`{def}` y={y}: easting offset {} from the false origin: {:?} but without false easting {:?}", (k as f64 - 1000.0) * 1.9e4, q, p));
+                    break;
+                }
+            }
+        }
+    }
+    assert!(fails.is_empty(), "C10.N.tmerc.strip: {} failures in {} evaluations, first: {:?}", fails.len(), n, &fails[..fails.len().min(3)]);
 }
